@@ -22,6 +22,7 @@ def call(g): return stmt("call", g)
 def ref(g): return stmt("ref", g)
 def keep(p, g, a="none", lay="1"): return stmt("keep", g, p, a, lay)
 def load(p): return stmt("load", p=p)
+def nested_eval(g): return stmt("eval", g)
 
 
 class Shape(object):
@@ -32,7 +33,8 @@ class Shape(object):
                  root_path: str = "/root_out",
                  real: Optional[Dict[str, Any]] = None,
                  tags: Optional[List[str]] = None,
-                 root2: Optional[str] = None):
+                 root2: Optional[str] = None,
+                 untracked: Optional[List[str]] = None):
         self.name = name
         self.root = root
         self.funs = list(stmts.keys())
@@ -60,6 +62,7 @@ class Shape(object):
         # entry styles, primary first
         self.styles = ["direct", "eval"] if self.dpath[root] else ["keep", "eval"]
         self.root2 = root2
+        self.untracked = list(untracked or [])
         self.roots = [{"f": root, "path": root_path, "styles": self.styles}]
         if root2:
             self.roots.append({"f": root2, "path": root_path + "_b",
@@ -69,10 +72,20 @@ class Shape(object):
     def check(self) -> None:
         for f in self.funs:
             for s in self.stmts[f]:
-                if s["k"] in ("call", "ref", "keep"):
+                if s["k"] in ("call", "ref", "keep", "eval"):
                     assert s["g"] in self.funs, (self.name, s)
             for v in self.reads[f]:
                 assert v in self.vtype, (self.name, v)
+
+    def all_paths(self) -> List[str]:
+        res = set(self.kept_paths())
+        for r in self.roots:
+            res.add(r["path"])
+        for f in self.funs:
+            for s in self.stmts[f]:
+                if s["k"] == "load":
+                    res.add(s["p"])
+        return sorted(res)
 
     def kept_paths(self) -> List[str]:
         res = []
@@ -93,6 +106,8 @@ class Shape(object):
             reads=dict(self.reads),
             vars=list(self.vars),
             vmax={v: VMAX.get(self.vtype[v], 9) for v in self.vars},
+            untracked=set(self.untracked),
+            psegs={p: [x for x in p.split("/") if x] for p in self.all_paths()},
         )
         return tlax(r)
 
@@ -100,12 +115,12 @@ class Shape(object):
         return {"name": self.name, "root": self.root, "funs": self.funs, "stmts": self.stmts,
                 "reads": self.reads, "vtype": self.vtype, "dpath": self.dpath,
                 "root_path": self.root_path, "param": self.param, "real": self.real,
-                "tags": self.tags, "styles": self.styles, "root2": self.root2}
+                "tags": self.tags, "styles": self.styles, "root2": self.root2, "untracked": self.untracked}
 
     @staticmethod
     def from_json(d: Dict[str, Any]) -> "Shape":
         return Shape(d["name"], d["root"], d["stmts"], d["reads"], d["vtype"], d["dpath"],
-                     d["root_path"], d.get("real"), d.get("tags"), d.get("root2"))
+                     d["root_path"], d.get("real"), d.get("tags"), d.get("root2"), d.get("untracked"))
 
 
 def shape_data_module(shapes: List[Shape]) -> str:
@@ -222,6 +237,113 @@ def load_shapes() -> List[Shape]:
         {"f1": [], "f3": [keep("/g/p5", "f5")], "f5": [call("f4")], "f4": [load("/g/p1")]},
         reads={"f1": ["v1"], "f4": ["v2"]}, vtype={"v1": "int", "v2": "int"},
         dpath={"f1": "/g/p1"}, root2="f3", tags=["producer-earlier-evaluation", "load-nested-helper"]))
+    return S
+
+
+def illformed_shapes(tier: str = "quick") -> List[Shape]:
+    """C11: overlapping kept paths in every call order and placement, call cycles of length 1..4
+    through each edge kind, dds.eval nested at depth 1..3 -- plus well-formed neighbours."""
+    import itertools
+    S: List[Shape] = []
+    side = {"g1": []}     # a well-formed side pipeline that populates the store (root 2)
+
+    def mk(name, root, stmts, tags, dpath=None, real=None):
+        st = dict(stmts)
+        st.update(side)
+        dp = dict(dpath or {})
+        dp["g1"] = "/side/g1"
+        S.append(Shape(name, root, st, dpath=dp, root2="g1", tags=tags, real=real, root_path="/zz/root_out"))
+
+    # --- overlapping paths: path sets x orders x placements
+    sets = [(["/f", "/f/g"], True), (["/f", "/h", "/f/g"], True), (["/a/b", "/c", "/a"], True),
+            (["/a/b/c", "/ab", "/a/b"], True), (["/x", "/f/g/h", "/y", "/f"], True),
+            (["/f", "/fg", "/h"], False), (["/a/b", "/ab/c", "/a/c"], False), (["/f/g", "/f/h", "/g"], False)]
+    n = 0
+    for (paths, bad) in sets:
+        perms = list(itertools.permutations(paths))
+        if tier == "quick":
+            perms = perms[:: max(1, len(perms) // 4)]
+        for perm in perms:
+            for placement in ("body", "nested", "datafun"):
+                n += 1
+                funs = {"f1": []}
+                dpath = {}
+                for (i, p) in enumerate(perm):
+                    leaf = "k%d" % (i + 1)
+                    funs[leaf] = []
+                    if placement == "body":
+                        funs["f1"].append(keep(p, leaf))
+                    elif placement == "nested":
+                        h = "h%d" % (i + 1)
+                        funs[h] = [keep(p, leaf)]
+                        funs["f1"].append(call(h))
+                    else:
+                        dpath[leaf] = p
+                        funs["f1"].append(call(leaf))
+                mk("ov%d" % n, "f1", funs, ["overlap" if bad else "no-overlap", "placement:" + placement,
+                                            "paths:" + ",".join(perm)], dpath)
+    # --- cycles of length 1..4 through each edge kind
+    def edge(kind, g, path):
+        if kind == "call":
+            return call(g)
+        if kind == "ref":
+            return ref(g)
+        return keep(path, g)
+    for length in (1, 2, 3, 4):
+        for kind in ("call", "keep", "ref", "method"):
+            for entry in ("on-cycle", "below-root"):
+                funs = {}
+                names = ["c%d" % (i + 1) for i in range(length)]
+                for (i, f) in enumerate(names):
+                    nxt = names[(i + 1) % length]
+                    k = "call" if kind == "method" else kind
+                    funs[f] = [edge(k, nxt, "/cy/%s" % nxt)]
+                root = names[0]
+                if entry == "below-root":
+                    funs = dict([("r0", [call(names[0])])] + list(funs.items()))
+                    root = "r0"
+                real = {"as_class": [x for x in names if x != root]} if kind == "method" else None
+                if kind == "method" and not real["as_class"]:
+                    continue
+                mk("cy_%s_%d_%s" % (kind, length, entry), root, funs, ["cycle", "edge:" + kind, "len:%d" % length, entry], real=real)
+    # --- nested eval at depth 1..3
+    for depth in (1, 2, 3):
+        for via in ("call", "keep"):
+            funs = {}
+            names = ["e%d" % (i + 1) for i in range(depth)]
+            for (i, f) in enumerate(names):
+                if i + 1 < depth:
+                    funs[f] = [edge(via, names[i + 1], "/ne/%s" % names[i + 1])]
+                else:
+                    funs[f] = [nested_eval("t1")]
+            funs["t1"] = []
+            mk("ne_%s_%d" % (via, depth), names[0], funs, ["nested-eval", "via:" + via, "depth:%d" % depth])
+    return S
+
+
+def boundary_shapes() -> List[Shape]:
+    """C14: accepted code calling / referencing functions of a non-accepted module, and the
+    mirror image (data functions living in the non-accepted module)."""
+    S: List[Shape] = []
+    # accepted pipeline using a non-accepted helper at two levels
+    S.append(Shape(
+        "bd_mixed", "f1",
+        {"f1": [call("u1"), call("f2")], "f2": [call("u2"), keep("/m/p3", "f3")], "f3": [ref("u1")], "u1": [], "u2": []},
+        reads={"f1": ["v1"], "f3": ["v2"]}, vtype={"v1": "int", "v2": "bool"},
+        dpath={"f1": "/m/p1"}, untracked=["u1", "u2"], tags=["ext-call", "ext-ref"]))
+    # the root data function lives in the non-accepted module
+    S.append(Shape(
+        "bd_root", "u1", {"u1": [], "f1": [call("f2")], "f2": []},
+        dpath={"u1": "/m/u1", "f1": "/m/f1"}, untracked=["u1"], root2="f1", tags=["ext-root-datafun"]))
+    # accepted code calls a data function of the non-accepted module
+    S.append(Shape(
+        "bd_call_df", "f1", {"f1": [call("f2"), call("u1")], "f2": [], "u1": []},
+        reads={"f2": ["v1"]}, vtype={"v1": "int"},
+        dpath={"f2": "/m/f2", "u1": "/m/u1"}, untracked=["u1"], tags=["ext-datafun-called"]))
+    # accepted code keeps a function of the non-accepted module
+    S.append(Shape(
+        "bd_keep", "f1", {"f1": [keep("/m/k", "u1")], "u1": []},
+        untracked=["u1"], tags=["ext-keep"]))
     return S
 
 
